@@ -80,6 +80,7 @@ theorem step_failBind_mem (s : Sys F) (e : Ev) (a : Nat) (h : a ∈ (step s e).1
   | setCfg cfg => left; exact h
   | crit d => left; exact h
   | failNext cid => left; exact h
+  | failAfter cid kfa => left; exact h
   | failBind cid =>
     have h' : a ∈ cid :: s.failBind := h
     rcases List.mem_cons.1 h' with e | e
@@ -322,6 +323,7 @@ theorem step_reg_idle (s : Sys F) (e : Ev) (h : RegIdle s.reg)
   | setCfg cfg => exact h
   | crit d => exact h
   | failNext cid => exact h
+  | failAfter cid kfa => exact h
   | failBind cid => exact h
   | stamp idx weak ld ccb cct => exact h
   | syncTimeout => exact h
